@@ -206,7 +206,9 @@ def run(fb, rep, tier, cfg):
         "mismatching Rust type is refused): get_global's T::from_value lies behind the true edge of check_signature on "
         "(T::make_type, the binding's type); run_expr passes T::make_type as the expected type of the compile pipeline; "
         "Function::cast compares the two function types; and every other function that produces a caller-chosen T via "
-        "from_value outside a Getable impl is on a reviewed list. Losslessness of conversions is not decided.")
+        "from_value outside a Getable impl is on a reviewed list. Of the first sentence one clause is decided (R12f): for bool, Ordering, "
+        "Option and Result the tag written by Pushable::vm_push for each Rust variant, the variant Getable::from_value builds for that "
+        "tag, and the constructor index declared in std/types.glu agree. Losslessness of payload conversions is not decided.")
     rep.assumptions += ["Getable impls are compositional: they convert at types fixed by the outer, checked, type",
                         "entries of tables/getable_entrypoints.json are reviewed by hand, one symbol each"]
     r12a(fb, rep)
@@ -214,3 +216,5 @@ def run(fb, rep, tier, cfg):
     r12b(fb, rep)
     r12c(fb, rep)
     r12d(fb, rep)
+    from . import r12f
+    r12f.run(fb, rep)
